@@ -103,12 +103,12 @@ def run_scratch(name, prop, tier="quick", only=None):
             return
         env = dict(os.environ, VF_REPO_SRC=f"{wt}/src", PYTHONPATH="/verif")
         t0 = time.time()
-        cmd = f"/verif/.venv/bin/python -m vf.run {prop} --tier {tier} --no-evidence" + (f" --only '{only}'" if only else "")
+        cmd = f"/verif/.venv/bin/python -m vf.run {prop} --tier {tier} --no-evidence --first" + (f" --only '{only}'" if only else "")
         r = sh(cmd, cwd="/verif", env=env, timeout=6 * 3600)
     finally:
         sh(f"git -C /repo worktree remove --force {wt}")
-    lines = [l for l in r.stdout.splitlines() if l.startswith(("VIOLATION", "  job=", "INCONCLUSIVE", "HARNESS-ERROR", "KNOWN")) or " obligations (" in l]
-    res = {"check": f"./check {prop} {tier}" + (f" (obligations matching {only})" if only else ""), "mode": "scratch worktree via VF_REPO_SRC", "exit": r.returncode,
+    lines = [l for l in r.stdout.splitlines() if l.startswith(("VIOLATION", "  job=", "INCONCLUSIVE", "HARNESS-ERROR", "KNOWN")) or " obligations (" in l or "stopped at the first" in l]
+    res = {"check": f"./check {prop} {tier}" + (f" (obligations matching {only})" if only else ""), "mode": "scratch worktree via VF_REPO_SRC; stopped at the first violation that replays", "exit": r.returncode,
            "wall_s": round(time.time() - t0, 1), "detected": r.returncode == 1, "lines": [l[:300] for l in lines[:8]]}
     meta = json.load(open(os.path.join(dst, "meta.json")))
     meta["checks_run"] = [c for c in meta["checks_run"] if c["check"] != res["check"]] + [res]
